@@ -27,6 +27,17 @@ import (
 
 const sigRecycle = "reply:lost-or-misaddressed:unlock-first-frees-foreign-command"
 
+// same mechanism, the hold was taken away by an UNLOCK that names the LockId (a client that pipelines the UNLOCK /
+// cancel-wait behind its own LOCK without waiting for the grant, or any party that knows the LockId)
+const sigRecycleById = "reply:lost-or-misaddressed:unlock-frees-in-flight-command"
+
+func recycleSig(first bool) string {
+	if first {
+		return sigRecycle
+	}
+	return sigRecycleById
+}
+
 type sentInfo struct {
 	conn, idx int
 	cmd       protocol.LockCommand
@@ -82,6 +93,7 @@ func monitor(rc *runCtx, res *ScenResult, srvLocked, srvWait int, reread func() 
 		}
 	}
 	grants := map[[16]byte]int{}
+	ambiguous := map[[16]byte]bool{} // LockIds of LOCK requests with more than one terminal reply: which one is genuine is unknown
 	shortExp := map[[16]byte]bool{}
 	removals := map[[16]byte][]relInfo{}
 	type pending struct {
@@ -132,6 +144,9 @@ func monitor(rc *runCtx, res *ScenResult, srvLocked, srvWait int, reread func() 
 			}
 			si.nTerm++
 			if si.nTerm > 1 {
+				if si.cmd.CommandType == protocol.COMMAND_LOCK {
+					ambiguous[si.cmd.LockId] = true
+				}
 				astray = append(astray, pending{ci, i, "reply:duplicate-terminal", fmt.Sprintf("connection %d: request %x got a second terminal reply (%s after %s)", ci, f.RequestId, resName(int(f.Result)), resName(int(bc.recv[si.terminal].Raw[19]))), si})
 				continue
 			}
@@ -271,7 +286,7 @@ func monitor(rc *runCtx, res *ScenResult, srvLocked, srvWait int, reread func() 
 			}
 			bc := binOf(p.conn)
 			for _, l := range lost {
-				if l.conn != p.conn || l.claimed || l.rel == nil || !l.rel.first {
+				if l.conn != p.conn || l.claimed || l.rel == nil {
 					continue
 				}
 				if pass == 0 && !(l.rel.conn == p.req.conn && p.req.t >= l.rel.reqSent) {
@@ -303,7 +318,7 @@ func monitor(rc *runCtx, res *ScenResult, srvLocked, srvWait int, reread func() 
 				if pass == 1 {
 					how = fmt.Sprintf("the stray frame arrived after that unlock (its RequestId belongs to connection %d: the object went through more than one free list while the reply was pending)", p.req.conn)
 				}
-				add(sigRecycle, p.what+fmt.Sprintf("; LOCK request %x of connection %d (lock id %x) never got a reply although it was granted: an unlock-first UNLOCK on connection %d was answered SUCCED naming its LockId before, and %s — the reply of the lost request was built from its recycled command object", l.si.cmd.RequestId, l.conn, l.si.cmd.LockId, l.rel.conn, how), frames, rt)
+				add(recycleSig(l.rel.first), p.what+fmt.Sprintf("; LOCK request %x of connection %d (lock id %x) never got a reply although it was granted: an UNLOCK (unlock-first: %v) on connection %d was answered SUCCED naming its LockId before, and %s — the reply of the lost request was built from its recycled command object", l.si.cmd.RequestId, l.conn, l.si.cmd.LockId, l.rel.first, l.rel.conn, how), frames, rt)
 				break
 			}
 		}
@@ -342,9 +357,9 @@ func monitor(rc *runCtx, res *ScenResult, srvLocked, srvWait int, reread func() 
 			typ = "unlock"
 		}
 		kind := kindOfReq(l.si.cmd.RequestId)
-		if l.rel != nil && l.rel.first {
+		if l.rel != nil {
 			rf, rt := relFrames(*l.rel)
-			add(sigRecycle, fmt.Sprintf("LOCK request %x (%s) on connection %d never got a terminal reply within timeout+3 s although it was granted: an UNLOCK with the unlock-first flag on connection %d was answered SUCCED naming its LockId %x (the hold was taken away before its owner heard of it; no stray frame was seen on the connection — dropped, or written to a text connection's filter)", l.si.cmd.RequestId, kind, l.conn, l.rel.conn, l.si.cmd.LockId),
+			add(recycleSig(l.rel.first), fmt.Sprintf("LOCK request %x (%s) on connection %d never got a terminal reply within timeout+3 s although it was granted: an UNLOCK (unlock-first: %v) on connection %d was answered SUCCED naming its LockId %x (the hold was taken away before its owner heard of it; no stray frame was seen on the connection — dropped, or written to a text connection's filter)", l.si.cmd.RequestId, kind, l.conn, l.rel.first, l.rel.conn, l.si.cmd.LockId),
 				append([]FrameView{x}, rf...), rt)
 			continue
 		}
@@ -369,9 +384,9 @@ func monitor(rc *runCtx, res *ScenResult, srvLocked, srvWait int, reread func() 
 			b, _ := hex.DecodeString(ex.LockId)
 			copy(id[:], b)
 			if ex.Type == 1 {
-				if rs := removals[id]; len(rs) > 0 && rs[0].first {
+				if rs := removals[id]; len(rs) > 0 {
 					rf, rt := relFrames(rs[0])
-					add(sigRecycle, fmt.Sprintf("text connection %d: %v never got a reply (%s) although the lock was granted: an unlock-first UNLOCK on connection %d was answered SUCCED naming its LOCK_ID", ex.Conn, ex.Args, ex.Err, rs[0].conn), rf, append([]TextExchange{*ex}, rt...))
+					add(recycleSig(rs[0].first), fmt.Sprintf("text connection %d: %v never got a reply (%s) although the lock was granted: an UNLOCK on connection %d was answered SUCCED naming its LOCK_ID", ex.Conn, ex.Args, ex.Err, rs[0].conn), rf, append([]TextExchange{*ex}, rt...))
 					continue
 				}
 			}
@@ -380,10 +395,15 @@ func monitor(rc *runCtx, res *ScenResult, srvLocked, srvWait int, reread func() 
 	}
 
 	// ---- (M5) state
-	implied := 0
+	implied, slack := 0, 0
+	for id := range ambiguous {
+		if !shortExp[id] && len(removals[id]) == 0 {
+			slack++ // a duplicated reply: the hold exists or not, depending on which of the two frames is the genuine one
+		}
+	}
 	for id, n := range grants {
-		if shortExp[id] {
-			continue // expired during the drain period at the latest
+		if shortExp[id] || ambiguous[id] {
+			continue // expired during the drain period at the latest / see slack
 		}
 		if len(removals[id]) == 0 {
 			implied += n
@@ -398,10 +418,10 @@ func monitor(rc *runCtx, res *ScenResult, srvLocked, srvWait int, reread func() 
 	res.Implied = implied
 	res.ServerLocked = [2]int{srvLocked, srvLocked}
 	res.ServerWait = srvWait
-	if srvLocked != implied || srvWait != 0 {
+	if srvLocked < implied || srvLocked > implied+slack || srvWait != 0 {
 		l2, w2 := reread()
 		res.ServerLocked[1] = l2
-		if l2 != implied {
+		if l2 < implied || l2 > implied+slack {
 			add("state:locked-count-mismatch", fmt.Sprintf("after the drain period the server reports locked_count=%d (then %d one second later) for db %d, the replies imply %d hold(s); %d release(s) named a LockId whose grant no connection ever heard of", srvLocked, l2, s.Db, implied, unannounced), nil, nil)
 		}
 		if w2 != 0 {
